@@ -249,7 +249,7 @@ Section Sound.
       + destruct lk; [|discriminate]. cbn [o_res o_cache].
         rewrite (load_hit_sound _ _ _ _ _ _ Hm HU Hsb E2). auto.
       + destruct (derive (g_ver g) (f_bytes f)) as [d|] eqn:Ed.
-        * destruct cl; cbn [o_res o_cache]; split; auto using sound_store, sound_clean.
+        * destruct (g_cw g), cl; cbn [o_res o_cache]; split; auto using sound_store, sound_clean.
         * cbn [o_res o_cache]. auto.
       + destruct lk; [|discriminate]. exfalso. exact (load_no_raise _ _ _ _ _ Hsb E2).
     - exfalso. exact (load_no_raise _ _ _ _ _ Hs E1).
